@@ -268,3 +268,23 @@ class Gen:
 def gen_program(seed, profile='all', feats=None, auto=False, size=(20, 90)):
     g = Gen(seed, profile, feats, auto, size)
     return g.program()
+
+
+# ---------------------------------------------------------------- bounded-exhaustive family
+
+EXH_CLASSES = [
+    "class 0 nf=2 traced=11 nw=1 cleaner=0 fin=- drop=-",
+    "class 1 nf=1 traced=1 nw=1 cleaner=0 fin=0 drop=-",
+    "script 0 : clone f0 s2",
+]
+EXH_PREFIX = ['cfgauto 0', 'new s0 1', 'new s1 1']
+EXH_ALPHABET = ['clone s0 a1.0', 'clone s1 a0.0', 'clone s0 a0.0', 'drop s0', 'drop s1', 'drop s2', 'collect',
+                'clone s0 s2', 'move s2 s0', 'markalive s1', 'drop a0.0', 'downgrade s0 w0', 'upgrade w0 s1', 'arm trace 2']
+
+
+def exhaustive_programs(length, alphabet=None):
+    """every program PREFIX ++ w ++ [obs/sobs suffix] for w in alphabet^length"""
+    import itertools
+    alphabet = alphabet or EXH_ALPHABET
+    for w in itertools.product(alphabet, repeat=length):
+        yield EXH_CLASSES + ['main : ' + ' ; '.join(EXH_PREFIX + list(w) + ['obs s0', 'obs s1', 'obs s2', 'collect', 'sobs'])]
